@@ -66,6 +66,12 @@ func ruleR22(c *Ctx) *RuleResult {
 			}
 			nok++
 			cs := effCallees(g)
+			// sifting down from the root: bubbleDown() or, written out, bubbleDownIndex(0)
+			if len(cs) == 3 && cs[2] == "bubbleDownIndex" && len(g.Effects) >= 3 {
+				if _, a, ok := effDo(g.Effects[len(g.Effects)-1]); ok && len(a) == 2 && a[0].String() == "p:0" && a[1].String() == "#:0" {
+					cs[2] = "bubbleDown"
+				}
+			}
 			if strings.Join(cs, ",") != "Swap,Remove,bubbleDown" {
 				bad = append(bad, "Pop must swap slot 0 with the last slot, remove the last slot and sift down, found: "+strings.Join(cs, ","))
 				continue
